@@ -21,7 +21,7 @@ import aiortc.rtcdatachannel  # noqa: E402
 
 from ..choices import Choices
 from ..eventlog import EventLog
-from ..loop import SimBudgetExceeded, SimDeadlock, new_loop, node_context
+from ..loop import RunTimeout, SimBudgetExceeded, SimDeadlock, hang_frame, new_loop, node_context
 from ..net import BENIGN, Link, Profile, random_profile
 from ..seams import Seams, teardown_loop
 
@@ -1326,6 +1326,13 @@ def execute(spec, ch, cfg, ops, keep_log=False):
             world.loop.run_until_complete(world.main())
         except (SimDeadlock, SimBudgetExceeded) as exc:
             harness = "%s: %s" % (type(exc).__name__, exc)
+        except RunTimeout as exc:
+            where = hang_frame(world.loop, exc)
+            if where is None:
+                raise
+            world.probes["hang_detected"] += 1
+            world.violation(spec["property"], "hang:event-loop-frozen-by-busy-loop@" + where,
+                            "a callback spun for more than 10 s of wall time; innermost aiortc frame: " + where)
     finally:
         try:
             world.cleanup()
